@@ -177,6 +177,9 @@ func TestVerifC15Sources(t *testing.T) {
 	if err != nil || pm != "" {
 		panic("VERIF-INFRA: default config does not load: " + fmt.Sprint(err, pm))
 	}
+	// a rendering taken now: the loaded Config aliases the package defaults (slices), so
+	// comparing against the live value later would compare a damaged default with itself
+	defRender := c15Render(def)
 	for _, o := range opts {
 		for vi, v := range o.vals {
 			one := map[string]string{o.name: v}
@@ -221,10 +224,14 @@ func TestVerifC15Sources(t *testing.T) {
 					L.Violation("option-differs-between-cmdline-and-"+strings.Fields(r.src)[0]+"-source", d)
 				}
 			}
-			if c15Render(base.cfg) == c15Render(def) && !strings.Contains(o.name, "checkDeregisterCriticalServiceAfter") && o.name != "aws.apigw.cert.cn" && !(o.kind == "Bool" && v == "false") && !c15IsDefault(o, v, def, base.cfg) {
+			if c15Render(base.cfg) == defRender && !strings.Contains(o.name, "checkDeregisterCriticalServiceAfter") && o.name != "aws.apigw.cert.cn" && !(o.kind == "Bool" && v == "false") && !c15IsDefault(o, v, def, base.cfg) {
 				L.Inc("options_without_visible_effect", 1)
 			}
 			L.Outcome(o.name + "=" + v)
+			// loading must not change what the defaults are for later loads
+			if d2, err2, pm2 := c15Load(dir, nil, nil, nil, nil, 0); err2 != nil || pm2 != "" || c15Render(d2) != defRender {
+				L.Violation("defaults-changed-by-an-earlier-load:"+o.kind, map[string]interface{}{"after_loading": o.name + "=" + v, "now": c15Render(d2)[:0] + o.name})
+			}
 		}
 		// precedence
 		if len(o.vals) < 2 {
